@@ -32,7 +32,7 @@ theorem registerImported_ok : ∀ (stmts : List Stmt) (ctx : Ctx) (out : List St
       | .varDef vars _ =>
         let (ctx, ex) := vars.foldl (fun (a : Ctx × Bool) v =>
           let e := (assocGet a.1.vars v.name).isSome
-          (if !e && v.pub then { a.1 with vars := assocSet a.1.vars v.name v } else a.1, e)) (ctx, false)
+          (if !e && v.pub then { a.1 with vars := assocSet a.1.vars v.name v } else a.1, a.2 && e)) (ctx, true)
         (ctx, if ex then out else out ++ [st])
       | .funcDef name pub rets params _ =>
         let e := (assocGet ctx.funcs name).isSome
@@ -45,7 +45,7 @@ theorem registerImported_ok : ∀ (stmts : List Stmt) (ctx : Ctx) (out : List St
       | .varDef vars _ =>
         let (ctx, ex) := vars.foldl (fun (a : Ctx × Bool) v =>
           let e := (assocGet a.1.vars v.name).isSome
-          (if !e && v.pub then { a.1 with vars := assocSet a.1.vars v.name v } else a.1, e)) (ctx, false)
+          (if !e && v.pub then { a.1 with vars := assocSet a.1.vars v.name v } else a.1, a.2 && e)) (ctx, true)
         (ctx, if ex then out else out ++ [st])
       | .funcDef name pub rets params _ =>
         let e := (assocGet ctx.funcs name).isSome
@@ -67,7 +67,7 @@ theorem registerImported_ok : ∀ (stmts : List Stmt) (ctx : Ctx) (out : List St
       have inner : ∀ (vs : List Var) (a : Ctx × Bool), CtxOK a.1 → PT.varsKnown vs = true →
           CtxOK (vs.foldl (fun (a : Ctx × Bool) v =>
             let e := (assocGet a.1.vars v.name).isSome
-            (if !e && v.pub then { a.1 with vars := assocSet a.1.vars v.name v } else a.1, e)) a).1 := by
+            (if !e && v.pub then { a.1 with vars := assocSet a.1.vars v.name v } else a.1, a.2 && e)) a).1 := by
         intro vs
         induction vs with
         | nil => intro a ha _; exact ha
@@ -81,7 +81,7 @@ theorem registerImported_ok : ∀ (stmts : List Stmt) (ctx : Ctx) (out : List St
           · exact ha.setVar _ _ hk.1
           · exact ha
       dsimp only
-      refine ih _ _ (inner vars (ctx, false) hc hk) ?_ hs.2
+      refine ih _ _ (inner vars (ctx, true) hc hk) ?_ hs.2
       split
       · exact ho
       · exact stmts_snoc ho hst
